@@ -83,7 +83,61 @@ def ghost_items(tname, fields):
     open spec fn wf_dec(data: Seq<u8>, p: int, v: &Self, p2: int) -> bool {
         let q = p;
 %s    }
-""" % (ok, enc, body))
+%s""" % (ok, enc, body, rt_items(tname, fields)))
+
+def len_term(kind, f, recv='self'):
+    x = '%s.%s' % (recv, f)
+    if kind == 'u8':
+        return '1'
+    if kind in INT_WIDTH:
+        return str(INT_WIDTH[kind])
+    if kind.startswith('bytes'):
+        return kind[5:]
+    if kind == 'name':
+        return '(wl(%s.lv()) + 1)' % x
+    if kind == 'cstr':
+        return '(1 + %s.bytes().len())' % x
+    if kind == 'tail':
+        return '%s@.len()' % x
+    raise ValueError(kind)
+
+def rt_items(tname, fields, nocomp=None):
+    """wf_cdec / wf_nocomp and the generated round-trip proof: decode(pre + encode(v)) relates to v"""
+    from schema import NO_COMPRESSION
+    nc = 'true' if tname in NO_COMPRESSION else 'false'
+    lines = ['        lemma_pow256_vals();', '        let d = pre + self.wf_enc();', '        let q0 = pre.len() as int;']
+    for i, (kind, f) in enumerate(fields):
+        x = 'self.%s' % f
+        q = 'q%d' % i
+        lines.append('        let q%d = %s + %s;' % (i + 1, q, len_term(kind, f)))
+        if kind == 'u8':
+            lines.append('        assert(d[%s] == %s);' % (q, x))
+        elif kind in ('u16', 'u32', 'u128', 'i32'):
+            n = INT_WIDTH[kind]
+            val = 'i32_bits(%s)' % x if kind == 'i32' else '%s as nat' % x
+            lines.append('        lemma_be_enc(%s, %d);' % (val, n))
+            lines.append('        assert(d.subrange(%s, %s + %d) =~= enc_be(%s, %d));' % (q, q, n, val, n))
+        elif kind.startswith('bytes'):
+            n = int(kind[5:])
+            lines.append('        assert(d.subrange(%s, %s + %d) =~= %s@);' % (q, q, n, x))
+        elif kind == 'name':
+            lines.append('        lemma_name_roundtrip(d.subrange(0, %s), %s.lv(), d.subrange(q%d, d.len() as int));' % (q, x, i + 1))
+            lines.append('        assert(d =~= d.subrange(0, %s) + name_enc(%s.lv()) + d.subrange(q%d, d.len() as int));' % (q, x, i + 1))
+        elif kind == 'cstr':
+            lines.append('        assert(d[%s] == %s.bytes().len() as u8);' % (q, x))
+            lines.append('        assert(d.subrange(%s + 1, q%d) =~= %s.bytes());' % (q, i + 1, x))
+        elif kind == 'tail':
+            lines.append('        assert(d.subrange(%s, d.len() as int) =~= %s@);' % (q, x))
+    return ("""    open spec fn wf_cdec(data: Seq<u8>, p: int, v: &Self, p2: int) -> bool { Self::wf_dec(data, p, v, p2) }
+    open spec fn wf_canon(&self) -> bool { true }
+    open spec fn wf_nocomp() -> bool { %s }
+    proof fn lemma_rt(&self, pre: Seq<u8>) {
+%s
+    }
+""" % (nc, '\n'.join(lines)))
+
+def _unused():
+    return ("")
 
 def impl_header(c, rel, tname, trait="WireFormat<'a>"):
     s = c.rd(rel)
